@@ -354,7 +354,7 @@ func runC01(r *Run) {
 			r.need(len(brs) >= 1, fn+" branches on the match result")
 			for _, br := range brs {
 				slot, _ := br.truthSlot(false)
-				_, hit := reach(pointOfEdge(edge{br.If.Block(), slot}), func(in ssa.Instruction) bool {
+				_, hit := reachEdge(edge{br.If.Block(), slot}, func(in ssa.Instruction) bool {
 					if g.instrWrites(in, "DefaultCtx.route") {
 						return true
 					}
